@@ -470,6 +470,11 @@ func GenLimits(prop string, seed uint64, thorough bool) *Scenario {
 		}
 	} else if mode == 2 {
 		x.Raw = append(x.Raw, RawOp{Op: "ws-open", Query: "EIO=4&transport=websocket"})
+		if g.p(0.3) {
+			// the application's connection listener takes its time: frames that arrive meanwhile are read by a
+			// reader that has been running since the transport was constructed - with the limit in force
+			sc.Reent = append(sc.Reent, ReentSpec{Event: "connection", Call: "sleep", Ms: g.pick(10, 40), Sess: "x1", Nth: 1})
+		}
 		for i, n := 0, g.rng(1, 3); i < n; i++ {
 			sz := sizes[g.IntN(len(sizes))]
 			if sz < 1 {
